@@ -23,13 +23,15 @@ func runC04(c *Ctx) {
 		return
 	}
 	ruleWatch(c, p, roles, "C04")
-	ruleDiscard(c, p, roles)
+	ruleDiscard(c, p, roles, "C04")
 	ruleNoLeak(c, p, roles, "C04.leak")
 	ruleWriterInvariant(c, p, "C04.writer")
 	rulePacketRead(c, p, "C04.packet-read")
 	ruleCloseMarks(c, p, "C04.close-marks")
 	ruleChainComplete(c, p, "C04.chain")
+	ruleNoAsyncConn(c, p, "C04.async")
 	rulePacketDeadline(c, p, "C04.deadline")
+	ruleDeadlineDisarmed(c, p, "C04.disarm")
 	_ = cfg
 	c.R.Assumptions = append(c.R.Assumptions,
 		"errgroup cancels the shared context when a goroutine returns a non-nil error (x/sync contract)",
@@ -281,23 +283,46 @@ func flagOfCall(r *doRoles, g *ssa.Function, call ssa.CallInstruction) ssa.Value
 	return freeVarBinding(r.Do, g, fv.Name())
 }
 
+// watchHost: the function that holds the cancel decision - the watch closure itself, or the one
+// client method it delegates to after the wait.
+func watchHost(r *doRoles) *ssa.Function {
+	wh := r.Watch
+	if len(core.FindCalls(r.Watch, isClientMethod("cancelQuery"))) == 0 {
+		for _, cc := range core.Calls(r.Watch) {
+			if g := core.StaticFn(cc); g != nil && g.Blocks != nil && pkgOf(g) != nil && pkgOf(g).Path() == core.PkgCh && len(core.FindCalls(g, isClientMethod("cancelQuery"))) == 1 {
+				wh = g
+			}
+		}
+	}
+	return wh
+}
+
 func ruleWatch(c *Ctx, p *core.Program, r *doRoles, prop string) {
 	cfg := p.Cfg.Name
+	// the function that holds the decision: the watch closure itself, or the one client method it
+	// delegates to after the wait (its flag parameters are resolved at the call site)
+	wh := watchHost(r)
+	flagIn := func(call ssa.CallInstruction) ssa.Value {
+		if wh != r.Watch {
+			return flagOfAny(r, call)
+		}
+		return flagOfCall(r, r.Watch, call)
+	}
 	// the two flags of the watch: loads whose true edge suppresses the cancel (exception flag)
 	// and loads whose true edge leads to it (receiver-failed flag)
 	var excFlag, failFlag ssa.Value
-	for _, call := range core.FindCalls(r.Watch, isAtomicBool("Load")) {
+	for _, call := range core.FindCalls(wh, isAtomicBool("Load")) {
 		v := call.Value()
-		cq := core.FindCalls(r.Watch, isClientMethod("cancelQuery"))
+		cq := core.FindCalls(wh, isClientMethod("cancelQuery"))
 		if v == nil || len(cq) != 1 {
 			continue
 		}
-		tr := core.CondEdges(r.Watch, true, func(cond ssa.Value) (bool, bool) { return true, cond == v })
-		fl := core.CondEdges(r.Watch, false, func(cond ssa.Value) (bool, bool) { return true, cond == v })
-		if len(fl) > 0 && core.OnlyViaEdges(r.Watch, cq[0].(ssa.Instruction), fl) {
-			excFlag = flagOfCall(r, r.Watch, call)
+		tr := core.CondEdges(wh, true, func(cond ssa.Value) (bool, bool) { return true, cond == v })
+		fl := core.CondEdges(wh, false, func(cond ssa.Value) (bool, bool) { return true, cond == v })
+		if len(fl) > 0 && core.OnlyViaEdges(wh, cq[0].(ssa.Instruction), fl) {
+			excFlag = flagIn(call)
 		} else if len(tr) > 0 {
-			failFlag = flagOfCall(r, r.Watch, call)
+			failFlag = flagIn(call)
 		}
 	}
 	// (a) done channel: watch blocks on a channel that the receiver closes by a
@@ -366,56 +391,56 @@ func ruleWatch(c *Ctx, p *core.Program, r *doRoles, prop string) {
 	rule = prop + ".watch-cancel"
 	c.R.Rule(rule, "in the cancel-watch, after the wait, every path on which the shared context has an error and no server exception was seen reaches cancelQuery(); cancelQuery is reachable only on such paths")
 	func() {
-		calls := core.FindCalls(r.Watch, isClientMethod("cancelQuery"))
+		calls := core.FindCalls(wh, isClientMethod("cancelQuery"))
 		if len(calls) != 1 {
 			c.R.Bad(rule, core.FuncName(r.Watch), cfg, p.Pos(r.Watch.Pos()), sprintf("expected one call of cancelQuery in the cancel-watch, found %d", len(calls)))
 			return
 		}
 		cq := calls[0].(ssa.Instruction)
-		ctxErrTrue := core.CondEdges(r.Watch, true, func(cond ssa.Value) (bool, bool) {
+		ctxErrTrue := core.CondEdges(wh, true, func(cond ssa.Value) (bool, bool) {
 			x, nonNil, ok := nilCmp(cond)
 			if !ok || !isCtxErr(x) {
 				return false, false
 			}
 			return nonNil, true
 		})
-		ctxErrFalse := core.CondEdges(r.Watch, false, func(cond ssa.Value) (bool, bool) {
+		ctxErrFalse := core.CondEdges(wh, false, func(cond ssa.Value) (bool, bool) {
 			x, nonNil, ok := nilCmp(cond)
 			if !ok || !isCtxErr(x) {
 				return false, false
 			}
 			return nonNil, true
 		})
-		excFalse := core.CondEdges(r.Watch, false, func(cond ssa.Value) (bool, bool) {
+		excFalse := core.CondEdges(wh, false, func(cond ssa.Value) (bool, bool) {
 			_, ok := core.CallTo(cond, isAtomicBool("Load"))
 			return true, ok
 		})
-		excTrue := core.CondEdges(r.Watch, true, func(cond ssa.Value) (bool, bool) {
+		excTrue := core.CondEdges(wh, true, func(cond ssa.Value) (bool, bool) {
 			_, ok := core.CallTo(cond, isAtomicBool("Load"))
 			return true, ok
 		})
 		// the exception flag is the one whose set value suppresses the cancel; other flags (receiver failed) are positive disjuncts
 		isExc := func(cond ssa.Value) bool {
 			cl, ok := core.CallTo(cond, isAtomicBool("Load"))
-			return ok && flagOfCall(r, r.Watch, cl) == excFlag && excFlag != nil
+			return ok && flagIn(cl) == excFlag && excFlag != nil
 		}
-		excFalse = core.CondEdges(r.Watch, false, func(cond ssa.Value) (bool, bool) { return true, isExc(cond) })
-		excTrue = core.CondEdges(r.Watch, true, func(cond ssa.Value) (bool, bool) { return true, isExc(cond) })
+		excFalse = core.CondEdges(wh, false, func(cond ssa.Value) (bool, bool) { return true, isExc(cond) })
+		excTrue = core.CondEdges(wh, true, func(cond ssa.Value) (bool, bool) { return true, isExc(cond) })
 		posTrue := append([]core.Edge{}, ctxErrTrue...)
-		posTrue = append(posTrue, core.CondEdges(r.Watch, true, func(cond ssa.Value) (bool, bool) {
+		posTrue = append(posTrue, core.CondEdges(wh, true, func(cond ssa.Value) (bool, bool) {
 			cl, ok := core.CallTo(cond, isAtomicBool("Load"))
-			return true, ok && failFlag != nil && flagOfCall(r, r.Watch, cl) == failFlag
+			return true, ok && failFlag != nil && flagIn(cl) == failFlag
 		})...)
 		if len(ctxErrTrue) == 0 || len(excFalse) == 0 {
 			c.R.Bad(rule, core.FuncName(r.Watch), cfg, p.Pos(cq.Pos()), "the cancel-watch does not test ctx.Err() and the exception flag")
 			return
 		}
-		if !core.OnlyViaEdges(r.Watch, cq, posTrue) || !core.OnlyViaEdges(r.Watch, cq, excFalse) {
+		if !core.OnlyViaEdges(wh, cq, posTrue) || !core.OnlyViaEdges(wh, cq, excFalse) {
 			c.R.Bad(rule, core.FuncName(r.Watch), cfg, p.Pos(cq.Pos()), "cancelQuery is reachable without (ctx.Err()!=nil || receiver failed) && !gotException")
 			return
 		}
 		// completeness: with the (ctx.Err()==nil) and (gotException) edges removed, no exit avoids cancelQuery
-		w := core.ReachAvoiding(core.Entry(r.Watch), core.IsExit, func(in ssa.Instruction) bool { return in == cq },
+		w := core.ReachAvoiding(core.Entry(wh), core.IsExit, func(in ssa.Instruction) bool { return in == cq },
 			core.WithoutEdges(append(append([]core.Edge{}, ctxErrFalse...), excTrue...)))
 		if len(w) > 0 {
 			c.R.Bad(rule, core.FuncName(r.Watch), cfg, p.Pos(w[0].At.Pos()), "a path with a failed context and no exception leaves the watch without calling cancelQuery", p.TrailString(w[0])...)
@@ -630,9 +655,9 @@ func ruleWatch(c *Ctx, p *core.Program, r *doRoles, prop string) {
 // ---------------------------------------------------------------------------
 // C04.discard
 
-func ruleDiscard(c *Ctx, p *core.Program, r *doRoles) {
+func ruleDiscard(c *Ctx, p *core.Program, r *doRoles, prefix string) {
 	cfg := p.Cfg.Name
-	rule := "C04.discard-flush"
+	rule := prefix + ".discard-flush"
 	c.R.Rule(rule, "every exit of (*Client).flush has passed through (*proto.Writer).Flush (which resets the writer unconditionally, C14) or an explicit discard of the pending output, so nothing encoded before a failed flush can be sent by a later request")
 	isDiscard := func(in ssa.Instruction) bool {
 		return core.IsCallOf(in, isWriterFlush) || core.IsCallOf(in, func(f *types.Func) bool {
@@ -648,7 +673,7 @@ func ruleDiscard(c *Ctx, p *core.Program, r *doRoles) {
 			c.R.Ok(rule, core.FuncName(fl), cfg, p.Pos(fl.Pos()), "every exit is preceded by Writer.Flush or a discard")
 		}
 	}
-	rule = "C04.discard-do"
+	rule = prefix + ".discard-do"
 	c.R.Rule(rule, "in Do, every path from the return of g.Wait() with a possibly non-nil error to the exit passes through Close or a discard of the writer (the sender may have failed between encoding and flushing, e.g. on a server exception)")
 	wv := r.Wait.Value()
 	start := core.PointOf(r.Wait.(ssa.Instruction))
@@ -668,6 +693,41 @@ func ruleDiscard(c *Ctx, p *core.Program, r *doRoles) {
 		c.R.Bad(rule, core.FuncName(r.Do), cfg, p.Pos(w[0].At.Pos()), "Do returns the error of g.Wait() without closing the client or discarding the writer's pending output: bytes encoded for the failed query are sent in front of the next request")
 	} else {
 		c.R.Ok(rule, core.FuncName(r.Do), cfg, p.Pos(r.Wait.Pos()), "failed Wait() is followed by Close or discard on every path")
+	}
+	// anything Do's own body encodes into the writer (outside the goroutines, whose failures end in the
+	// Wait() path above) must be discarded when it fails
+	encodes := func(f *ssa.Function) bool {
+		return f != nil && f.Blocks != nil && core.ReachesCallee(f, func(g *types.Func) bool {
+			return core.IsMethod(g, core.PkgProto, "Writer", "ChainBuffer") || core.IsMethod(g, core.PkgProto, "Writer", "ChainWrite")
+		}, 4)
+	}
+	for _, call := range core.Calls(r.Do) {
+		sf := core.StaticFn(call)
+		if sf == nil || pkgOf(sf) == nil || pkgOf(sf).Path() != core.PkgCh || !encodes(sf) {
+			continue
+		}
+		ev := core.ErrValue(call)
+		if ev == nil {
+			continue
+		}
+		al2 := core.Aliases(r.Do, ev)
+		nonNil := func(b *ssa.BasicBlock, i int) bool {
+			if ifi, ok := b.Instrs[len(b.Instrs)-1].(*ssa.If); ok {
+				if ns, ok := core.NilTest(ifi, al2); ok && ns == i {
+					return false
+				}
+			}
+			return true
+		}
+		key := core.CallKey(r.Do, call)
+		w2 := core.ReachAvoiding(core.PointOf(call.(ssa.Instruction)), core.IsExit, func(in ssa.Instruction) bool {
+			return isDiscard(in) || core.IsCallOf(in, isClientMethod("Close")) || in == r.Wait.(ssa.Instruction)
+		}, nonNil)
+		if len(w2) > 0 {
+			c.R.Bad(rule, key, cfg, p.Pos(w2[0].At.Pos()), "Do encodes into the client's writer outside its goroutines and, when that fails, returns without discarding the pending output or closing the client: the partly encoded request is sent in front of the next one")
+		} else {
+			c.R.Ok(rule, key, cfg, p.Pos(call.Pos()), "failure is followed by Close / discard / the Wait path")
+		}
 	}
 }
 
@@ -731,5 +791,43 @@ func ruleCloseMarks(c *Ctx, p *core.Program, rule string) {
 	}
 	if !bad {
 		c.R.Ok(rule, "Close", cfg, p.Pos(cl.Pos()), "closed = true on every path through conn.Close()")
+	}
+}
+
+// ruleNoAsyncConn (C04.async): nothing manipulates the connection from a timer / context callback.
+func ruleNoAsyncConn(c *Ctx, p *core.Program, rule string) {
+	c.R.Rule(rule, "who-may-touch the transport asynchronously: in package ch no callback registered with context.AfterFunc / time.AfterFunc (or started by such a callback) calls a method of the connection (deadlines, Write, Close): inside Do the query context is the errgroup's, which is also cancelled by the one failure that keeps the client open (a server exception), so a callback that expires the write deadline on cancellation cuts the sender's write in the middle of a packet and leaves the client open at no packet boundary; cancellation is the cancel-watch goroutine's job (C04.watch-*)")
+	cfg := p.Cfg.Name
+	n, bad := 0, false
+	for _, fn := range p.Funcs() {
+		if pkgOf(fn) == nil || pkgOf(fn).Path() != core.PkgCh {
+			continue
+		}
+		for _, call := range core.Calls(fn) {
+			f := core.CalleeFunc(call)
+			if f == nil || f.Name() != "AfterFunc" || f.Pkg() == nil || (f.Pkg().Path() != "context" && f.Pkg().Path() != "time") {
+				continue
+			}
+			n++
+			args := call.Common().Args
+			cb := core.ClosureArg(call, len(args)-1)
+			touches := cb == nil
+			if cb != nil {
+				for g := range core.StaticReach(cb, 3) {
+					for _, cc := range core.Calls(g) {
+						if cm := cc.Common(); cm.IsInvoke() && core.IsNamed(cm.Value.Type(), "net", "Conn") {
+							touches = true
+						}
+					}
+				}
+			}
+			if touches {
+				bad = true
+				c.R.Bad(rule, core.CallKey(fn, call), cfg, p.Pos(call.Pos()), "a "+f.Pkg().Path()+".AfterFunc callback manipulates the connection: it fires on any cancellation of the context, including the errgroup's cancellation after a server exception, and interrupts a write in mid-packet")
+			}
+		}
+	}
+	if !bad {
+		c.R.Ok(rule, "ch", cfg, "", sprintf("%d AfterFunc registrations, none touching the connection", n))
 	}
 }
